@@ -16,6 +16,43 @@ CHECKS = {
             "domain is enumerated completely, so for the stated domain this is a decision, not a sample.",
             "Trusts the hand transcription of the specification tables in props/c20.py (self-checked to partition 0..100).",
             "DESIGN.md section 2, C20"),
+    "C16": ("exploration", "Hypothesis-generated JSON values vs independent RFC 8785 implementation (differential) + metamorphic laws",
+            "Tens of thousands of generated JSON values (doubles from raw bit patterns across all exponent ranges, UTF-16/code-point "
+            "conflicting key sets, control/astral strings) are canonicalized by the library and by an independent implementation "
+            "(oracle/rfc8785.py, self-tested on the RFC's vectors) and compared byte for byte; insertion-order independence, parse-back, "
+            "fixed point, whitespace and NaN/Infinity refusal are checked separately. Search, not proof.",
+            "Trusts oracle/rfc8785.py (own implementation, RFC appendix vectors as self-test) and Python's float()/json.loads.",
+            "DESIGN.md section 2, C16"),
+    "C15": ("exploration", "Hypothesis-generated instants/precisions vs integer-arithmetic reference formatter (differential) + fixed-point and order laws",
+            "Generated datetimes (naive, offsets -14h..+14h, pytz zones), dates, STIXdatetime and accepted strings across 3 precisions x 2 "
+            "constraints, through utils and through 12 TimestampProperty slots of real types, compared with oracle/tsref.py; write-read-write "
+            "fixed point and order preservation on pairs 1us..1y apart. Search, not proof.",
+            "Trusts oracle/tsref.py (proleptic Gregorian integer arithmetic, self-tested) and pytz for zone offsets.",
+            "DESIGN.md section 2, C15"),
+    "C03": ("exploration", "model-driven generation of specification-valid objects, strict parse, model-guided content comparison",
+            "Objects of every implemented type of STIX 2.0/2.1 are built by construction from a frozen, hand-audited specification model "
+            "(optional subsets, co-constraints, vocabularies, reference targets, boundary/falsy values, selectors on any path), pre-checked by "
+            "an independent validator, then parsed strictly alone / in a bundle / inside an observed-data container and compared property by "
+            "property with the re-serialization. Search over the model's space, not proof; bounded by my reading of the specification.",
+            "Trusts specmodel/v20.json, v21.json (transcription audited from memory; specmodel/AUDIT.md) and oracle/validator.py.",
+            "DESIGN.md section 2, C03"),
+    "C01": ("exploration", "generated objects x drawn option sets; round-trip, byte-identity and cross-option metamorphic relations",
+            "Objects of every type (parsed from dict/text or built through constructors with datetime values and clock-supplied defaults, "
+            "with custom properties / unregistered top-level extensions, bundles incl. empty and mixed-version) are serialized under the 4 "
+            "corner option sets plus 3-6 drawn from the full 128-combination product; parse-back class and equality, byte-for-byte "
+            "re-serialization, fp_serialize agreement, JSON equality across options up to spec-default omissions, and pretty key order "
+            "against the frozen model are asserted. Search, not proof.",
+            "Equality is the library's Mapping equality plus byte identity; specification order/defaults from the frozen model.",
+            "DESIGN.md section 2, C01"),
+    "C02": ("fault_enumeration", "systematic single-point corruption of generated valid objects (fault enumeration) + independent spec validator on whatever is accepted",
+            "For every type of both versions, several generated base objects are subjected to every targeted single-point corruption the "
+            "engine derives (bounds, vocabularies incl. dictionary-guided entries, reference target types, identifier/timestamp catalogues, "
+            "co-constraints, unknown properties ...) and a stratified sample of the generic wrong-kind replacements (all of them in the "
+            "thorough tier), through strict parse (named and auto-detected version) and the class constructor; the eight fixed TLP instances "
+            "are enumerated completely; 2-4 point corruptions are drawn. Whatever is accepted must serialize to JSON that the independent "
+            "validator (frozen spec model) accepts.",
+            "Only specification rules held with high confidence are switched on (specmodel/AUDIT.md); stix2patterns validates patterns.",
+            "DESIGN.md section 2, C02"),
 }
 
 NOT_YET = {}
